@@ -201,3 +201,40 @@ Definition ginit (vals : list Z) : gst :=
 
 (** a logged pair is consistent when it is (v+1, 2v) for one value v of s *)
 Definition consistent (p : Z * Z) : bool := Z.eqb (2 * (fst p - 1)) (snd p).
+
+(* ------------------------------------------------------------------------------------ *)
+(** * (e) a signal read that coincides with a write on another thread
+    `Plain::try_new` (signal/guards.rs) takes the value lock with the NON-blocking `try_read`:
+    while a writer holds `value.write()` it yields `None`, and `get()` / `read()` panic.
+    Thread 0 = writer of s (1 -> 2) pausing inside the write lock, thread 1 = reader. *)
+Inductive wpc := W0 | W1 | WDone.
+Inductive rdpc := R0 | RDone (v : Z) | RPanic.
+Record rst := mkR { r_sv : Z; r_w : wpc; r_r : rdpc }.
+
+Definition rstep (t : nat) (s : rst) : rst :=
+  match t with
+  | O => match r_w s with
+         | W0 => mkR (r_sv s) W1 (r_r s)
+         | W1 => mkR 2 WDone (r_r s)
+         | WDone => s
+         end
+  | S O => match r_r s with
+           | R0 => match r_w s with
+                   | W1 => mkR (r_sv s) (r_w s) RPanic
+                   | _ => mkR (r_sv s) (r_w s) (RDone (r_sv s))
+                   end
+           | _ => s
+           end
+  | _ => s
+  end.
+Definition rrun (s : rst) (sched : list nat) : rst := fold_left (fun s t => rstep t s) sched s.
+Definition rinit : rst := mkR 1 W0 R0.
+
+(** the reader is scheduled while the writer holds the lock *)
+Fixpoint read_under_write (s : rst) (sched : list nat) : bool :=
+  match sched with
+  | [] => false
+  | t :: r =>
+      (match t, r_w s, r_r s with S O, W1, R0 => true | _, _, _ => false end)
+      || read_under_write (rstep t s) r
+  end.
